@@ -429,4 +429,22 @@ theorem mps_cutoff_fails_on_current_code :
       .res 1 [1, 1, 0, 0] (4, none) (some 3) := by
   decide
 
+/-
+  What is still outside the model (validated by the correspondence only, or not generated at all):
+  * the numbers (answers are provenance); that masked and unmasked evaluation agree after herald post-selection
+    (C04); which vectors of an `evolve_svd` input pass the photon filter and what `_preprocess_svd` trims (the
+    driver is given the flags / inputs are generated so that nothing is trimmed);
+  * `Simulator.probs_density_matrix` / `evolve_density_matrix`, `probability(StateVector, ·)`, the early returns of
+    `probability` / `prob_amplitude` for a vacuum input (no model step); the caller's heralds dict kept by
+    reference;
+  * `Processor.with_input(LogicalState)` (stores `input.n` as the filter when none is set — the mechanism of the
+    automatic filter), `with_polarized_input`, `samples`, `clear_input_and_circuit`, feed-forward (`FFSimulator`
+    keeps a reference to the NoiseModel), the Loss / Delay / Polarization layers `SimulatorFactory` chooses;
+  * a Fock-state input that was not given again after `add_herald` (`Pr.inputCurrent` is a hypothesis; the code
+    then answers from the old merged input — `processor_herald_after_input_keeps_old_input`);
+  * the automatic photon filter as the code stores it is modelled (`stepPr true`) and refuted
+    (`processor_auto_filter_fails_on_current_code`); the theorem without the hypothesis `auto = false` holds only
+    for `stepPr false`, a repair that does not exist in the tree.
+-/
+
 end PM.C05
